@@ -20,6 +20,45 @@ type Opts struct {
 	MaxRul   int
 	Guarded  bool // every production starts with a token unique among its rule's alternatives (LL(1)-like, mostly conflict-free)
 	SugarPct int  // probability of sugar on a term (default 30)
+	HugePct  int  // percentage of grammars that get a rule with 250-330 alternatives (production indices beyond one byte)
+}
+
+// addPad adds a rule with several hundred alternatives (distinct token strings
+// of length 1..4, i.e. a finite, LR(1) language) reachable from the start rule,
+// placed before or after the other rules so that production indices of the
+// other rules are small or large.
+func addPad(t *rapid.T, g *G) {
+	n := ri(t, 250, 330, "padn")
+	nT := len(g.Toks)
+	total := 0
+	for l, pw := 1, nT; l <= 4; l, pw = l+1, pw*nT {
+		total += pw
+	}
+	if n > total*3/4 {
+		n = total * 3 / 4 // few tokens: not enough distinct strings of length <= 4
+	}
+	seen := map[string]bool{}
+	pad := Rule{Name: "pad"}
+	for len(pad.Prods) < n {
+		l := ri(t, 1, 4, "padlen")
+		var p Prod
+		for i := 0; i < l; i++ {
+			p.Terms = append(p.Terms, tokTerm(g, ri(t, 0, nT-1, "padt")))
+		}
+		k := fmt.Sprint(p.Terms)
+		if seen[k] {
+			continue
+		}
+		seen[k] = true
+		pad.Prods = append(pad.Prods, p)
+	}
+	use := Prod{Terms: []Term{tokTerm(g, ri(t, 0, nT-1, "padg")), ruleTerm("pad"), tokTerm(g, ri(t, 0, nT-1, "padf"))}}
+	g.Rules[0].Prods = append(g.Rules[0].Prods, use)
+	if rapid.Bool().Draw(t, "padfirst") {
+		g.Rules = append([]Rule{g.Rules[0], pad}, g.Rules[1:]...)
+	} else {
+		g.Rules = append(g.Rules, pad)
+	}
 }
 
 func ri(t *rapid.T, lo, hi int, l string) int { return rapid.IntRange(lo, hi).Draw(t, l) }
@@ -154,12 +193,15 @@ func GenG(t *rapid.T, o Opts) *G {
 			addShape(t, g, o)
 		}
 	}
+	if o.HugePct > 0 && ri(t, 0, 99, "huge") < o.HugePct {
+		addPad(t, g)
+	}
 	makeProductive(g)
 	if o.Guarded || ri(t, 0, 3, "connect") != 0 {
 		connect(t, g, o.Guarded)
 	}
 	if o.Styles {
-		g.Style = ri(t, 0, 31, "style")
+		g.Style = ri(t, 0, 63, "style")
 	}
 	return g
 }
@@ -221,8 +263,8 @@ func addShape(t *rapid.T, g *G, o Opts) {
 	var entry Term
 	var rules []Rule
 	P := func(ts ...Term) Prod { return Prod{Terms: ts} }
-	shape := ri(t, 0, 12, "shape")
-	if shape >= 10 && o.Prec {
+	shape := ri(t, 0, 13, "shape")
+	if shape >= 11 && o.Prec {
 		shape = 8
 	}
 	switch shape {
@@ -292,12 +334,32 @@ func addShape(t *rapid.T, g *G, o Opts) {
 			{Name: hn("t"), Prods: []Prod{P(ruleTerm(hn("t")), tk(1), ruleTerm(hn("f"))), P(ruleTerm(hn("f")))}},
 			{Name: hn("f"), Prods: []Prod{P(tk(2)), P(tk(3), ruleTerm(hn("e")), tk(4))}},
 		}
-	case 6: // unit chain ending in a nullable
-		entry = ruleTerm(hn("a"))
-		rules = []Rule{
-			{Name: hn("a"), Prods: []Prod{P(ruleTerm(hn("b")))}},
-			{Name: hn("b"), Prods: []Prod{P(ruleTerm(hn("c")))}},
-			{Name: hn("c"), Prods: []Prod{P(tk(0)), P()}},
+	case 6: // unit chain of 2..6 rules ending in a nullable rule that may refer back to the top
+		kk := ri(t, 2, 6, "chainlen")
+		cn := func(i int) string { return hn(fmt.Sprintf("a%d", i)) }
+		for i := 0; i < kk-1; i++ {
+			rules = append(rules, Rule{Name: cn(i), Prods: []Prod{P(ruleTerm(cn(i + 1)))}})
+		}
+		var tail Rule
+		switch ri(t, 0, 2, "tail") {
+		case 0:
+			tail = Rule{Name: cn(kk - 1), Prods: []Prod{P(tk(0)), P()}}
+		case 1: // nullability climbs the chain first, then the terminal has to climb it again
+			tail = Rule{Name: cn(kk - 1), Prods: []Prod{P(), P(ruleTerm(cn(0)), tk(0))}}
+		default:
+			tail = Rule{Name: cn(kk - 1), Prods: []Prod{P(), P(tk(0), ruleTerm(cn(0)))}}
+		}
+		rules = append(rules, tail)
+		if ri(t, 0, 2, "bottomup") == 0 { // declaration order matters to iterative analyses
+			for i, j := 0, len(rules)-1; i < j; i, j = i+1, j-1 {
+				rules[i], rules[j] = rules[j], rules[i]
+			}
+		}
+		entry = ruleTerm(cn(0))
+		if rapid.Bool().Draw(t, "afterNT") {
+			// the chain directly after a nonterminal (lookaheads of that nonterminal come from FIRST(chain ...))
+			rules = append(rules, Rule{Name: hn("s"), Prods: []Prod{P(tk(2)), P(tk(3), ruleTerm(hn("s")), ruleTerm(cn(0)), tk(4))}})
+			entry = ruleTerm(hn("s"))
 		}
 	case 7: // unreachable rule + token unused by the parser
 		rules = []Rule{{Name: hn("u"), Prods: []Prod{P(tk(0), tk(1))}}}
@@ -319,6 +381,15 @@ func addShape(t *rapid.T, g *G, o Opts) {
 			}
 		}
 		rules = []Rule{{Name: hn("e"), Prods: pr}}
+	case 9: // the same element under the same sugar twice, with different separators / contexts
+		entry = ruleTerm(hn("s"))
+		sugar := []Kind{KListOpt, KList}[ri(t, 0, 1, "lk")]
+		rules = []Rule{
+			{Name: hn("s"), Prods: []Prod{
+				P(tk(0), Term{Kind: sugar, Name: hn("x"), Sep: g.Toks[(base+1)%nT], SepTk: true}, tk(2)),
+				P(tk(3), Term{Kind: sugar, Name: hn("x"), Sep: g.Toks[(base+4)%nT], SepTk: true}, tk(5))}},
+			{Name: hn("x"), Prods: []Prod{P(tk(6))}},
+		}
 	default: // two nullable siblings followed by a token (FIRST through several nullables)
 		entry = ruleTerm(hn("s"))
 		rules = []Rule{
